@@ -38,6 +38,8 @@ struct ModelOut {
   bool incomplete_data = false;    // input ended inside a DATA phase
   bool ambiguous = false;          // outcome not determined by the documents (e.g. cut exactly at the terminator)
   std::vector<std::string> helo_at_data;
+  std::vector<std::string> phase_body, phase_quirk;   // reference decoding of every DATA phase that reached its terminator
+  std::vector<size_t> phase_reply;                    // index of the reply that ends that phase
 };
 
 // address parsing as the documents describe: optional <>, source route stripped, quoted strings and backslash escapes
@@ -156,6 +158,7 @@ static void model_smtp(const SmtpConf &cf, const std::string &in, const std::vec
         if (qq_code == 82 && qq_text.size() > 2) perm = qq_text[0] == 'D';
         code = perm ? 554 : 451;
       }
+      M.phase_reply.push_back(M.codes.size()); M.phase_body.push_back(body); { std::string qk; size_t u3 = 0; int h3 = 0; model_decode(in, data_start, u3, qk, h3, true); M.phase_quirk.push_back(qk); }
       reply(code, 'd'); M.data_outcome.push_back(code);
       M.helo_at_data.push_back(fakehelo ? helo : std::string("\x01"));
       if (code == 250) { QMsg m; m.sender = sender; m.rcpts = rcpts; m.body = body; { size_t u2 = 0; int h2 = 0; model_decode(in, data_start, u2, m.body_quirk, h2, true); } M.msgs.push_back(m); }
@@ -296,7 +299,8 @@ struct WorldSI : World, Net {
     if (c.has("databytes")) { k->put_file(t.home + "/control/databytes", std::to_string(c.geti("databytes")) + "\n"); cf.databytes = (uint64_t)c.geti("databytes"); }
     if (c.has("timeoutsmtpd")) { k->put_file(t.home + "/control/timeoutsmtpd", std::to_string(c.geti("timeoutsmtpd")) + "\n"); cf.timeout = c.geti("timeoutsmtpd"); if (cf.timeout <= 0) cf.timeout = 1; }
     interfaces.clear(); interfaces.push_back(0x7f000001); for (auto &x : plan->knobs["interfaces"].a) interfaces.push_back((uint32_t)x.i());
-    cf.ifaces = interfaces; g_net = this;
+    cf.ifaces = interfaces; cf.ifaces.push_back(0);   // ipme.c: 0.0.0.0 always counts as this host
+    g_net = this;
     const Json &e = plan->knobs["env"];
     if (e.has("TCPREMOTEHOST")) cf.remotehost = e.gets("TCPREMOTEHOST"); if (e.has("TCPREMOTEIP")) cf.remoteip = e.gets("TCPREMOTEIP");
     if (e.has("TCPREMOTEINFO")) { cf.remoteinfo = e.gets("TCPREMOTEINFO"); cf.have_info = true; }
@@ -496,6 +500,15 @@ struct WorldSI : World, Net {
         if (q.size() > acked + (M.incomplete_data || client_cut_after_terminator() ? 1 : 0)) { violate("C07.queued-without-ack", std::to_string(q.size()) + " messages queued, " + std::to_string(acked) + " acknowledged; " + tr); return; }
         if (q.size() < acked) { violate("C07.ack-without-queue", std::to_string(acked) + " acknowledgements, " + std::to_string(q.size()) + " messages in the queue; " + tr); return; }
       }
+    }
+    // C05, independent of whether the reference would have accepted the message: whatever the server acknowledges with 250
+    // must be stored as exactly the decoding of the lines that were transmitted (never a prefix of it)
+    if (c05 && (!use_stub || qq_code == 0) && !plan->knobs.getb("real_qq_fault", false)) {
+      size_t k2 = 0;
+      for (size_t j = 0; j < M.phase_reply.size(); j++) { size_t ri = M.phase_reply[j]; if (ri >= got.size() || got[ri] != 250) continue;
+        if (k2 >= q.size()) break; const QMsg &g = q[k2++];
+        if (g.body != M.phase_body[j] && g.body != M.phase_quirk[j]) { size_t d = 0; while (d < g.body.size() && d < M.phase_body[j].size() && g.body[d] == M.phase_body[j][d]) d++;
+          violate("C05.acknowledged-body", "the server answered 250 but stored " + std::to_string(g.body.size()) + " bytes where the transmitted lines decode to " + std::to_string(M.phase_body[j].size()) + " bytes (first difference at offset " + std::to_string(d) + "); " + tr); return; } }
     }
     size_t nm = std::min(q.size(), M.msgs.size());
     for (size_t i = 0; i < nm; i++) {
